@@ -118,7 +118,7 @@ def make_case(index, rng, tier):
                 "unix": rng.randrange(3) == 0, "pidfile": rng.randrange(4) != 0,
                 "buggify": {"pyticks": rng.randrange(3) == 0, "fork_child_first": rng.randrange(2) == 0, "spurious_select": rng.randrange(3) == 0,
                             "random_spawn_delay": rng.randrange(2) == 0},
-                "extra": rng.choice([None, None, "second-signal", "killw", "ttou-before", "hup-before", "rm-socket", "burst-before"])}
+                "extra": rng.choice([None, None, "second-signal", "killw", "ttou-before", "hup-before", "rm-socket", "burst-before", "hup-rebind"])}
     kind = rng.choice(["sync", "gthread", "gevent", "eventlet"])
     clients = []
     for i in range(rng.randrange(1, 4)):
@@ -405,6 +405,15 @@ def run_master(case, choices):
                 sim.fault("master_signal:" + case["extra"])
                 sim.kill(m.pid, int(signal.SIGTTOU if case["extra"] == "ttou-before" else signal.SIGHUP))
         sim.after(max(0.0, case["sig_at"] - 0.4), retire)
+    elif case.get("extra") == "hup-rebind" and case["unix"]:
+        # a reload that moves the server to another unix socket path, some time before it is stopped: the file of the first socket is
+        # the server's own creation as well
+        def rebind():
+            if m.state == "running" and int(signal.SIGCHLD) in m.handlers:
+                sim.fault("master_signal:hup-rebind")
+                w.cfgsrc["bind"] = ["unix:/run/g2.sock"]
+                sim.kill(m.pid, int(signal.SIGHUP))
+        sim.after(max(0.0, case["sig_at"] - 0.6), rebind)
     elif case.get("extra") == "burst-before":
         # five other signals reach the master in the same instant, just ahead of the stop signal
         def burst():
@@ -475,7 +484,13 @@ def run_master(case, choices):
                 l = sim.listener_for(w.addr)
                 if l is not None and l.open:
                     res.violate("C04:%s:listener-left-open" % fam, "after shutdown a listening socket for %r is still open; %s" % (w.addr, ctx()))
-                if case["unix"] and "/run/g.sock" in sim.fs:
+                if case["unix"] and case.get("extra") == "hup-rebind":
+                    for pth in ("/run/g.sock", "/run/g2.sock"):
+                        if pth in sim.fs:
+                            res.violate("C04:%s:unix-socket-left-after-rebind:%s" % (fam, pth[-7:]),
+                                        "the server was moved from unix:/run/g.sock to unix:/run/g2.sock by a reload and then stopped; %s is "
+                                        "still there; %s" % (pth, ctx()))
+                elif case["unix"] and "/run/g.sock" in sim.fs:
                     res.violate("C04:%s:unix-socket-left" % fam, "the unix socket file is still there after shutdown; %s" % ctx())
                 if case["pidfile"] and "/run/g.pid" in sim.fs:
                     res.violate("C04:%s:pidfile-left" % fam, "the pid file is still there after shutdown; %s" % ctx())
